@@ -329,7 +329,9 @@ class UrlSource(Source[Iterable[str]]):
             raise CobaException("Unrecognized scheme, supported schemes are: http, https or file.")
 
     def read(self) -> Iterable[str]:
-        return self._source.read()
+        text = self._source.read()
+        #an HttpSource that isn't given a chunk size answers with the whole body as one string rather than its lines
+        return text.splitlines() if isinstance(text,str) else text
 
 class DataFrameSource(Source[Iterable[Mapping[str,Any]]]):
 
